@@ -76,6 +76,19 @@ def ref_rejected(steps, options):
 _MEMO = {}
 
 
+def _inplace(dst, src):
+    """make dictionary `dst` equal to `src` without replacing nested
+    dictionaries that both have"""
+    for k in list(dst):
+        if k not in src:
+            del dst[k]
+    for k, v in src.items():
+        if isinstance(v, dict) and isinstance(dst.get(k), dict):
+            _inplace(dst[k], v)
+        else:
+            dst[k] = copy.deepcopy(v)
+
+
 class Driver(hist.Driver):
     prop = PROP
     name = "synthetic"
@@ -90,6 +103,13 @@ class Driver(hist.Driver):
                                    "preprocessing_options": options}, rid])
         self.ops += [["F", {}, None], ["F", {"weight_cp": 0}, None],
                      ["R", "Decision Tree", "zef18", None, None]]
+        # a client that keeps ONE steps list / options dictionary and edits
+        # it in place between requests (nested per-step dictionaries too)
+        for rid in self.shared_rids:
+            steps, options, rej = REQUESTS[rid]
+            self.ops.append(["P", steps, options, False, rid, "shared"])
+
+    shared_rids = ("V2", "V3", "V4", "V5", "V6")
 
     def fresh_idnt(self):
         tr = synth.truth_params("hertz_para", E=3000.0, contact_point=2e-7,
@@ -104,6 +124,21 @@ class Driver(hist.Driver):
         return idnt
 
     def apply(self, idnt, op):
+        if op[0] == "P" and len(op) > 5:
+            sh = idnt.__dict__.setdefault("_verif_shared",
+                                          {"steps": [], "options": {}})
+            sh["steps"][:] = op[1]
+            _inplace(sh["options"], op[2])
+            exc = None
+            try:
+                idnt.apply_preprocessing(sh["steps"], sh["options"])
+            except BaseException as e:
+                if isinstance(e, (KeyboardInterrupt, SystemExit,
+                                  MemoryError)):
+                    raise
+                exc = ops.short_exc(e)
+            return {"ok": exc is None, "exc": exc, "minimize": 0,
+                    "trainings": 0, "ret": None}
         return ops.apply_op(idnt, op[:4] if op[0] == "P" else op[:2]
                             if op[0] == "F" else op)
 
@@ -149,6 +184,8 @@ class Driver(hist.Driver):
                                "F": "fit_model"}.get(op[0], op[0]),
                          witness=f"{rid or op[0]}"
                                  + (":ret_details" if op[0] == "P" and op[3]
+                                    else "")
+                                 + (":shared" if op[0] == "P" and len(op) > 5
                                     else ""),
                          detail=detail, case=case, kind="hist"))
         if rid is None:
@@ -277,7 +314,7 @@ def run(tier):
     forces = set()
     for name, depth in plan:
         drv = DRIVERS[name]
-        seen, info = hist.search(drv, rep, depth, merge_check=True)
+        seen, info = hist.search(drv, rep, depth, merge_check="full")
         forces |= info["raw_stats"].get("distinct_force_columns", set())
         hs = sorted((h for h, _ in seen.values()), key=len)
         rep.sample({"driver": name, "history": [drv.ops[i] for i in hs[-1]]})
